@@ -77,6 +77,9 @@ def real_run(job):
                 elif m == 6:      # list(path.next()): the caller keeps the yielded lines and reads them after the run has ended
                     kept = list(p.next())
                     lines = [l[:] for l in kept]
+                elif m == 7:      # collect(lines=<the caller's own list>): what CsvPaths.collect_paths does with result.lines
+                    sink = []
+                    lines = list(p.collect(lines=sink))
                 elif m == 2:
                     p.fast_forward()
                 elif m == 3:
@@ -126,9 +129,9 @@ def runcase_lit(job, obs):
     sc = f"(mkSc {listlit(s['these'])} {optlit(s['from'])} {optlit(s['to'])} {blit(s['all'])})"
     blanks = [len(r) == 0 for r in job["rows"]]
     tab = listlit(obs["calls"], lambda c: f"(mkM {zlit(c[0])} {blit(c[1])} {blit(c[2])} {zlit(c[3])} {zlit(c[4])})")
-    m = 1 if job["method"] == 6 else (job["method"] if job["method"] < 4 else 3)
+    m = 1 if job["method"] == 6 else (0 if job["method"] == 7 else (job["method"] if job["method"] < 4 else 3))
     ret = obs["ret"] if obs["ret"] is not None else []
-    unm = obs["unmatched"] if job["method"] in (0, 3) else []
+    unm = obs["unmatched"] if job["method"] in (0, 3, 7) else []
     return (f"mkRun {sc} {listlit(blanks, blit)} {blit(obs['cwnm'])} {blit(obs['unm_avail'])} {blit(obs.get('will_run', True))} {m} {job.get('k', 0)}%nat {tab} "
             f"{listlit(ret)} {listlit(obs['unmatched'])} {zlit(obs['scan_count'])} {zlit(obs['match_count'])} {blit(obs['stopped'])}")
 
